@@ -1,1 +1,311 @@
+import SpoxModel.Lemmas.BuildAlgDfs
+import SpoxModel.Lemmas.BuildAlgLca
+import SpoxModel.Lemmas.BuildAlgEmit
+import SpoxModel.Lemmas.BuildAlgDiscover
+import SpoxModel.Lemmas.BuildAlgLeak
 /-! Property theorems for C04 (only property-level statements and non-vacuity examples live here). -/
+namespace C04
+open BuildAlg
+
+/-- What a successful `build` hands to the theorems below. -/
+theorem build_inv (p : Prog) (hwf : WF p) (b : Built) (tr : List Ev) (h : build p = .ok (b, tr)) :
+    ∃ cs : CState, tr = cs.trace.reverse ∧ Post p b ⟨[], []⟩ cs ∧ V.src 0 ∈ cs.intro ∧
+      b.topo = visit p.adjFull p.fuel (.src 0) [] ∧
+      (∀ g, ∀ a ∈ lookupL b.argsOf g, p.isArg a = true) := by
+  unfold build at h
+  split at h
+  · cases h
+  · rename_i st hd
+    simp only at h
+    split at h
+    · cases h
+    · split at h
+      · cases h
+      · rename_i cs hc
+        cases h
+        obtain ⟨hp, hs⟩ := post_compileG p _ _ _ _ _ hc
+        refine ⟨cs, rfl, hp, hs, rfl, ?_⟩
+        intro g a ha
+        have hg : ArgsGood p st :=
+          discover_argsGood p hwf _ _ _ _
+            ⟨by intro e he; simp [DState.empty] at he, by intro e he; simp [DState.empty] at he⟩ hd
+        obtain ⟨e, he, _, hae⟩ := lookupL_mem ha
+        exact hg.1 e he a hae
+
+/-- **emitted_once** (at most once): in the nested emission of a successful build no vertex — operator
+    application or per-graph source — occurs twice, whatever mixture of graphs and bodies uses it. -/
+theorem emitted_nodup (p : Prog) (hwf : WF p) (b : Built) (tr : List Ev)
+    (h : build p = .ok (b, tr)) : (emitted tr).Nodup := by
+  obtain ⟨cs, rfl, ⟨new, ht, _, _, hd, _, _⟩, _⟩ := build_inv p hwf b tr h
+  rw [emitted_reverse]
+  simp only [List.append_nil] at ht
+  rw [ht]; exact nodup_reverse' hd
+
+/-- **emitted_once** (exactly the reachable ones): a vertex is in the nested emission of a
+    successful build iff it is not an Argument and some requested output of the main graph
+    depends on it through input and subgraph edges. -/
+theorem emitted_iff_reachable (p : Prog) (hwf : WF p) (b : Built) (tr : List Ev)
+    (h : build p = .ok (b, tr)) (v : V) :
+    v ∈ emitted tr ↔ Reach p.adjFull (.src 0) v ∧ v.isArgOf p = false := by
+  obtain ⟨cs, rfl, ⟨new, ht, _, he, _, hi, ha⟩, hsrc, htopo, hargs⟩ := build_inv p hwf b tr h
+  simp only [List.append_nil] at ht
+  rw [emitted_reverse, List.mem_reverse, ht]
+  have hrank := rank_adjFull p hwf
+  constructor
+  · intro hv
+    obtain ⟨_, _, _, hvt, hva⟩ := he v hv
+    rw [htopo] at hvt
+    exact ⟨(mem_visit_iff (rankV p) hrank p.fuel (.src 0) v (rank_src_lt_fuel p hwf 0)).mp hvt, hva⟩
+  · rintro ⟨hr, hva⟩
+    -- an introduced vertex that is not an emission was introduced as an argument of some graph
+    have harg : ∀ x ∈ cs.intro, x ∈ emitted new ∨ x.isArgOf p = true := by
+      intro x hx
+      rcases hi x hx with h0 | h1 | ⟨a, hxa, hm⟩
+      · cases h0
+      · left; exact h1
+      · right
+        obtain ⟨g, hg⟩ := ha a hm
+        subst hxa
+        exact hargs g a hg
+    have hreach : ∀ w, Reach p.adjFull (.src 0) w → w ∈ cs.intro := by
+      intro w0 hr0
+      induction hr0 with
+      | refl => exact hsrc
+      | @step u w hru hw ih =>
+        rcases harg u ih with hu | hu
+        · obtain ⟨hgood, _⟩ := he u hu
+          cases u with
+          | node n =>
+            simp only [Prog.adjFull, List.mem_append, List.mem_map] at hw
+            rcases hw with ⟨i, hi', rfl⟩ | ⟨s, hs, rfl⟩
+            · exact hgood.1 _ (by simp only [Prog.adjIn, List.mem_map]; exact ⟨i, hi', rfl⟩)
+            · exact hgood.2 n rfl s hs
+          | src g => exact hgood.1 _ hw
+        · cases u with
+          | node n =>
+            simp only [V.isArgOf] at hu
+            obtain ⟨h1, h2⟩ := hwf.arg_leaf n hu
+            simp [Prog.adjFull, h1, h2] at hw
+          | src g => simp [V.isArgOf] at hu
+    rcases harg v (hreach v hr) with h1 | h1
+    · exact h1
+    · rw [hva] at h1; cases h1
+
+/-- **unreachable_not_emitted**: an operator application no requested output depends on is not in
+    the built model at all. -/
+theorem unreachable_not_emitted (p : Prog) (hwf : WF p) (b : Built) (tr : List Ev)
+    (h : build p = .ok (b, tr)) (n : Nat) (hn : ¬ Reach p.adjFull (.src 0) (.node n)) :
+    V.node n ∉ emitted tr :=
+  fun hc => hn ((emitted_iff_reachable p hwf b tr h _).mp hc).1
+
+/-- **emitted_once**, as a count: each operator application appears exactly once if some requested
+    output depends on it and not at all otherwise. -/
+theorem emitted_once (p : Prog) (hwf : WF p) (b : Built) (tr : List Ev)
+    (h : build p = .ok (b, tr)) (n : Nat) (hna : p.isArg n = false) :
+    (Reach p.adjFull (.src 0) (.node n) → (emitted tr).count (.node n) = 1) ∧
+    (¬ Reach p.adjFull (.src 0) (.node n) → (emitted tr).count (.node n) = 0) := by
+  constructor
+  · intro hr
+    have hm : V.node n ∈ emitted tr := (emitted_iff_reachable p hwf b tr h _).mpr ⟨hr, hna⟩
+    exact count_eq_one_of_nodup (emitted_nodup p hwf b tr h) hm
+  · intro hr
+    exact List.count_eq_zero.mpr (unreachable_not_emitted p hwf b tr h n hr)
+
+/-! ### the two traversals every step of the Builder is made of -/
+
+/-- **lca_spec**: `ScopeTree.lca` (the alternating-ancestor walk) returns a common ancestor of both
+    graphs, of maximal depth, on any tree — with fuel 2·(depth a + depth b) + 3. -/
+theorem lca_spec {par d : Nat → Nat} (T : Tree par d) (P Q fuel : Nat)
+    (hf : 2 * (d P + d Q) + 3 ≤ fuel) :
+    (Anc par (lca par fuel P Q) P ∧ Anc par (lca par fuel P Q) Q) ∧
+      ∀ c, Anc par c P → Anc par c Q → d c ≤ d (lca par fuel P Q) :=
+  BuildAlg.lca_spec T P Q fuel hf
+
+/-- **lca_lowest**: … hence every common ancestor of the two graphs encloses the result. -/
+theorem lca_lowest {par d : Nat → Nat} (T : Tree par d) (P Q fuel : Nat)
+    (hf : 2 * (d P + d Q) + 3 ≤ fuel) :
+    Anc par (lca par fuel P Q) P ∧ Anc par (lca par fuel P Q) Q ∧
+      ∀ c, Anc par c P → Anc par c Q → Anc par c (lca par fuel P Q) :=
+  BuildAlg.lca_lowest T P Q fuel hf
+
+/-- **least_enclosing_fixed_tree** (the relaxation fold on a fixed scope tree): starting from the
+    first graph that reaches a node and relaxing with `scope := lca(G, scope)` for every further graph
+    `G` that reaches it, the node ends in the lowest common ancestor of all those graphs: it encloses
+    each of them, and every scope enclosing all of them encloses it. -/
+theorem least_enclosing_fixed_tree {par d : Nat → Nat} (T : Tree par d) (D fuel : Nat)
+    (hD : ∀ x, d x ≤ D) (hf : 4 * D + 3 ≤ fuel) (G0 : Nat) (Gs : List Nat) :
+    Lowest par (G0 :: Gs) (Gs.foldl (fun acc G => lca par fuel G acc) G0) := by
+  have h0 : Lowest par [G0] G0 :=
+    ⟨fun G hG => by simp at hG; subst hG; exact Anc.refl G, fun c' hc' => hc' G0 (by simp)⟩
+  simpa using relax_fold_lowest T D fuel hD hf Gs [G0] G0 h0
+
+/-- **visit_spec** (`iterative_dfs` post-order on a program in creation order): every vertex is listed
+    after all the vertices it depends on (inputs and bodies), exactly once, and the list is exactly
+    the set of vertices the root depends on. -/
+theorem visit_spec (p : Prog) (hwf : WF p) (g : Nat) :
+    Closed p.adjFull (visit p.adjFull p.fuel (.src g) []) ∧
+    (visit p.adjFull p.fuel (.src g) []).Nodup ∧
+    ∀ x, x ∈ visit p.adjFull p.fuel (.src g) [] ↔ Reach p.adjFull (.src g) x := by
+  have hrank := rank_adjFull p hwf
+  have hf := rank_src_lt_fuel p hwf g
+  refine ⟨(BuildAlg.visit_spec (rankV p) hrank p.fuel _ [] hf (closed_nil _)).1,
+    visit_nodup (rankV p) hrank p.fuel _ [] List.nodup_nil,
+    fun x => mem_visit_iff (rankV p) hrank p.fuel _ x hf⟩
+
+/-- the same for the input-edge traversals of `discover` / `update_scope_tree` -/
+theorem visit_spec_inputs (p : Prog) (hwf : WF p) (g : Nat) :
+    Closed p.adjIn (p.postIn g) ∧ (p.postIn g).Nodup ∧
+    ∀ x, x ∈ p.postIn g ↔ Reach p.adjIn (.src g) x := by
+  have hrank := rank_adjIn p hwf
+  have hf := rank_src_lt_fuel p hwf g
+  refine ⟨(BuildAlg.visit_spec (rankV p) hrank p.fuel _ [] hf (closed_nil _)).1,
+    visit_nodup (rankV p) hrank p.fuel _ [] List.nodup_nil,
+    fun x => mem_visit_iff (rankV p) hrank p.fuel _ x hf⟩
+
+/-! ### leaks to an outer scope are rejected at build time -/
+
+/-- `Below p s g`: the body `s` is held by a node that `g` reaches through input edges, or by a node
+    that a body below `g` reaches (any nesting depth). -/
+inductive Below (p : Prog) : Nat → Nat → Prop
+  | direct {g n s : Nat} : Reach p.adjIn (.src g) (.node n) → s ∈ p.subs n → Below p s g
+  | trans {g t s : Nat} : Below p t g → Below p s t → Below p s g
+
+theorem discover_final (p : Prog) (hwf : WF p) (b : Built) (tr : List Ev)
+    (h : build p = .ok (b, tr)) :
+    ∃ st : DState, DI p st ∧ (0 : Nat) ∈ st.topo ∧ b.graphTopo = st.topo.reverse := by
+  unfold build at h
+  split at h
+  · cases h
+  · rename_i st hd
+    simp only at h
+    split at h
+    · cases h
+    · split at h
+      · cases h
+      · cases h
+        have hdi0 : DI p DState.empty :=
+          ⟨by intro h hh; simp [DState.empty] at hh, by intro e he; simp [DState.empty] at he,
+           by intro s hs; simp [DState.empty] at hs, by intro s hs; simp [DState.empty] at hs,
+           by intro s hs; simp [DState.empty] at hs, by intro s hs; simp [DState.empty] at hs⟩
+        obtain ⟨r1, _, _, r4⟩ := discover_spec p hwf _ (rankV p (.src 0) + 1) 0 DState.empty st
+          (by omega) hdi0 (by intro h hh; simp [Unfin, DState.empty] at hh) hd
+        exact ⟨st, r1, r4, rfl⟩
+
+theorem below_claimed (p : Prog) (hwf : WF p) (st : DState) (hdi : DI p st) {s g : Nat}
+    (hb : Below p s g) : g ∈ st.topo →
+      s ∈ st.topo ∧ ∃ n1 s1, V.node n1 ∈ p.postIn g ∧ s1 ∈ p.subs n1 ∧
+        ∀ x ∈ lookupL st.claimedIn s, x ∈ lookupL st.claimedIn s1 := by
+  induction hb with
+  | @direct g n s hr hs =>
+    intro hg
+    have hn : V.node n ∈ p.postIn g :=
+      (mem_visit_iff (rankV p) (rank_adjIn p hwf) p.fuel _ _ (rank_src_lt_fuel p hwf g)).mpr hr
+    exact ⟨hdi.C g hg n hn s hs, n, s, hn, hs, fun x hx => hx⟩
+  | @trans g t s _ _ ih1 ih2 =>
+    intro hg
+    obtain ⟨ht, n1, s1, hn1, hs1, hsub1⟩ := ih1 hg
+    obtain ⟨hs, n2, s2, hn2, hs2, hsub2⟩ := ih2 ht
+    refine ⟨hs, n1, s1, hn1, hs1, ?_⟩
+    intro x hx
+    exact hsub1 x (hdi.J2 t ht n2 hn2 s2 hs2 x (hsub2 x hx))
+
+/-- In a successful build no graph reaches, through input edges, an argument of a body below it. -/
+theorem no_outer_leak (p : Prog) (hwf : WF p) (b : Built) (tr : List Ev)
+    (h : build p = .ok (b, tr)) (g s : Nat) (hg : g ∈ b.graphTopo) (hs : Below p s g)
+    (pg : PGraph) (l : List Nat) (hpg : p.graphs[s]? = some pg) (hl : pg.args = some l)
+    (a : Nat) (ha : a ∈ l) : ¬ Reach p.adjIn (.src g) (.node a) := by
+  obtain ⟨st, hdi, _, htopo⟩ := discover_final p hwf b tr h
+  have hg' : g ∈ st.topo := by rw [htopo] at hg; simpa using hg
+  obtain ⟨hst, n1, s1, hn1, hs1, hsub⟩ := below_claimed p hwf st hdi hs hg'
+  intro hr
+  have hmem : V.node a ∈ p.postIn g :=
+    (mem_visit_iff (rankV p) (rank_adjIn p hwf) p.fuel _ _ (rank_src_lt_fuel p hwf g)).mpr hr
+  exact hdi.L g hg' n1 hn1 s1 hs1 a (hsub a (hdi.J1 s hst pg l hpg hl a ha))
+    (hwf.args_arg s pg hpg l hl a ha) hmem
+
+/-- **leak_rejected** (outer scope): if the main graph, or any body below it, uses directly (through
+    input edges, i.e. outside every body) an argument that belongs to a body below it — at any
+    nesting depth — then `build` raises (the `claimed & used` test: `BuildError`, or any earlier
+    error); it never returns a model. -/
+theorem leak_rejected (p : Prog) (hwf : WF p) (g s : Nat) (hg : g = 0 ∨ Below p g 0)
+    (hs : Below p s g) (pg : PGraph) (l : List Nat) (hpg : p.graphs[s]? = some pg)
+    (hl : pg.args = some l) (a : Nat) (ha : a ∈ l) (hleak : Reach p.adjIn (.src g) (.node a)) :
+    ∀ b tr, build p ≠ .ok (b, tr) := by
+  intro b tr h
+  obtain ⟨st, hdi, h0, htopo⟩ := discover_final p hwf b tr h
+  have hg' : g ∈ b.graphTopo := by
+    rw [htopo]
+    rcases hg with hg | hg
+    · subst hg; simpa using h0
+    · simpa using (below_claimed p hwf st hdi hg h0).1
+  exact no_outer_leak p hwf b tr h g s hg' hs pg l hpg hl a ha hleak
+
+/-! ### the remaining rejections are single tests of the model (exercised by the correspondence) -/
+
+/-- **claimed_twice_rejected**: a graph whose argument list meets the arguments already claimed by the
+    graphs discovered below it is rejected (`BuildError`). -/
+theorem claimed_twice_rejected (pg : PGraph) (g : Nat) (st : DState) (acc : Acc)
+    (h : inter (argsFor pg acc) acc.claimed ≠ []) :
+    finishDiscover pg g st acc = .error (.build "already-claimed") := by
+  simp [finishDiscover, h]
+
+/-- **multiple_owner_rejected**: a Graph object already owned by another node is rejected. -/
+theorem multiple_owner_rejected (rec : Nat → DState → Except Err DState) (n o sub : Nat)
+    (x : DState × Acc) (st : DState) (hr : rec sub x.1 = .ok st) (ho : lookupN st.owner sub = some o)
+    (hne : o ≠ n) : subStep rec n x sub = .error (.build "multiple-owners") := by
+  simp [subStep, hr, ho, hne]
+
+/-- **double_introduction_rejected** (`Scope.update(force=True)`): compiling a vertex that is
+    already in the flat scope raises `ScopeError`. -/
+theorem double_introduction_rejected (p : Prog) (rec : Nat → CState → Except Err CState)
+    (cs : CState) (v : V) (h : v ∈ cs.intro) : emitStep p rec cs v = .error .scope := by
+  simp [emitStep, h]
+
+/-! ### non-vacuity: the nested-If program of the design probe, an outer leak, a sibling leak -/
+
+/-- ids: 0 x, 1 c (arguments); 2 e = Neg(x); 3 Neg(e) [outer else]; 4 Add(e, x) [inner then];
+    5 inner If(c){else: [x], then: [4]}; 6 outer If(c){else: [3], then: [5]}; 7 Add(6, x) -/
+def exNested : Prog :=
+  { nodes := [⟨true, [], []⟩, ⟨true, [], []⟩, ⟨false, [0], []⟩, ⟨false, [2], []⟩, ⟨false, [2, 0], []⟩,
+              ⟨false, [1], [1, 2]⟩, ⟨false, [1], [3, 4]⟩, ⟨false, [6, 0], []⟩],
+    graphs := [⟨some [0, 1], [7]⟩, ⟨some [], [0]⟩, ⟨some [], [4]⟩, ⟨some [], [3]⟩, ⟨some [], [5]⟩] }
+
+example : exNested.WFb = true := by decide
+
+/-- the build succeeds; `e` (used in the innermost then-branch and in the sibling else-branch) is
+    emitted exactly once, in the main graph; `Add(e, x)` stays in the innermost body -/
+example : ∃ b tr, build exNested = .ok (b, tr) ∧ (emitted tr).count (.node 2) = 1 ∧
+    (V.node 2, 0) ∈ placed tr [] ∧ (V.node 4, 2) ∈ placed tr [] ∧ (V.node 3, 3) ∈ placed tr [] ∧
+    structOk exNested tr [] = true := by
+  refine ⟨_, _, rfl, ?_, ?_, ?_, ?_, ?_⟩ <;> decide
+
+/-- a Loop body argument (4) leaked to the main graph: 7 = Add(Loop, arg 4) -/
+def exOuterLeak : Prog :=
+  { nodes := [⟨true, [], []⟩, ⟨true, [], []⟩, ⟨true, [], []⟩, ⟨true, [], []⟩, ⟨true, [], []⟩,
+              ⟨false, [4, 0], []⟩, ⟨false, [0], [1]⟩, ⟨false, [6, 4], []⟩],
+    graphs := [⟨some [0, 1], [7]⟩, ⟨some [2, 3, 4], [3, 5]⟩] }
+
+example : exOuterLeak.WFb = true := by decide
+example : build exOuterLeak = .error (.build "leaked") := by rfl
+
+/-- the hypotheses of `leak_rejected` are satisfiable (and its conclusion is what the model computes) -/
+example : ∀ b tr, build exOuterLeak ≠ .ok (b, tr) := by
+  have r7 : Reach exOuterLeak.adjIn (.src 0) (.node 7) := Reach.step (Reach.refl _) (by decide)
+  exact leak_rejected exOuterLeak (wf_of_wfb _ (by decide)) 0 1 (Or.inl rfl)
+    (Below.direct (n := 6) (Reach.step r7 (by decide)) (by decide))
+    ⟨some [2, 3, 4], [3, 5]⟩ [2, 3, 4] rfl rfl 4 (by decide) (Reach.step r7 (by decide))
+
+/-- sibling leak (design probe p4): the second Loop body uses the first body's argument 4. The
+    Builder itself does not object (`build` succeeds, both bodies hang off the main graph); it is the
+    structural rule of the final checker that rejects the emission. -/
+def exSiblingLeak : Prog :=
+  { nodes := [⟨true, [], []⟩, ⟨true, [], []⟩, ⟨true, [], []⟩, ⟨true, [], []⟩, ⟨true, [], []⟩,
+              ⟨false, [4, 0], []⟩, ⟨false, [0], [1]⟩,
+              ⟨true, [], []⟩, ⟨true, [], []⟩, ⟨true, [], []⟩,
+              ⟨false, [9, 4], []⟩, ⟨false, [6], [2]⟩],
+    graphs := [⟨some [0, 1], [11]⟩, ⟨some [2, 3, 4], [3, 5]⟩, ⟨some [7, 8, 9], [8, 10]⟩] }
+
+example : ∃ b tr, build exSiblingLeak = .ok (b, tr) ∧ structOk exSiblingLeak tr [] = false := by
+  refine ⟨_, _, rfl, ?_⟩; decide
+
+end C04
